@@ -1,3 +1,4 @@
+\* exhaustive safety: 2 databases, capacity 1, 2 clients, <= 3 acquires, <= 1 connect failure
 SPECIFICATION Spec
 CONSTANTS
     DBs = {"d1", "d2"}
@@ -8,6 +9,8 @@ CONSTANTS
     MaxConnId = 3
     FailBudget = 1
     MaxOps = 3
+    TrackAct = FALSE
+    FairPolicy = FALSE
 CONSTRAINT Bound
 INVARIANT TypeOK
 INVARIANT I_CapOK
@@ -17,4 +20,4 @@ INVARIANT I_CurOK
 INVARIANT I_NoErr
 INVARIANT I_BlockOK
 CHECK_DEADLOCK FALSE
-VIEW View
+INVARIANT I_NoLostWakeup
